@@ -1,0 +1,12 @@
+//go:build verif
+
+package util
+
+// Contracts for the verification framework in /verif (comment-only).
+
+// FormatKey as seen by the scheduler plugin: a deterministic function of the pod object
+// (keyOfPod, declared in pkg/ipam/schedulerplugin/zz_contracts_verif.go); the key object carries
+// the pod's name and namespace. ASSUMED here; the key grammar itself is the subject of C11.
+//@ func FormatKey trusted
+//@   modifies fresh KeyObj.*
+//@   ensures result0 != nil && fresh(result0) && result0.KeyInDB == keyOfPod(pod) && result0.PodName == pod.Name && result0.Namespace == pod.Namespace
